@@ -26,7 +26,7 @@ ASSUMPTIONS = [
     "ignore_feedback=True exempts the caller-requested case; latch/unlatch use it by design",
 ]
 SANITY = ["writes_with_injected_fault", "writes_to_nonconforming_unit", "writes_returning_normally"]
-BOUNDS = {"quick": "1 fault per run; 4 data patterns; short-write lengths {0,1,n-1}", "thorough": "3 faults per run on values <= 2 bytes, 2 on values <= 8 bytes, 1 otherwise, for all 6 data patterns; every short-write length"}
+BOUNDS = {"quick": "1 fault per run (2 on values <= 2 bytes); 4 data patterns; short-write lengths {0,1,n-1}", "thorough": "3 faults per run on values <= 2 bytes, 2 on values <= 8 bytes, 1 otherwise, for all 6 data patterns; every short-write length"}
 
 DOC_EXC = ("MemoryLocationNotWriteable", "MemoryWriteFailure", "ResponseError", "MemoryValueNotWriteable", "ValueError")
 GEAR_ADDR, DEV_ADDR = 3, 5
@@ -236,7 +236,7 @@ def run_shard(shard):
                     res["distinct"].add((name, r))
         sample(res, {"non_writable": name})
         return res
-    bound = 1 if (tier == "quick" or w > 8) else (3 if w <= 2 else 2)
+    bound = (2 if w <= 2 else 1) if (tier == "quick" or w > 8) else (3 if w <= 2 else 2)
     pats = patterns(w, tier)
     for fam in ("gear", "device"):
         for lock in (0xFF, 0x55, 0x00, 0xAA):
